@@ -62,6 +62,15 @@ def generate():
         raise RuntimeError(f'client UPDATE_MESSAGES has unsolicited actions unknown to the C07 model: {unsolicited}')
     out.append('/-- actions of lines that are not replies: update, error_update, log, help text line -/')
     out.append('def asyncActions : List (List Nat) := ' + llist(f'{lbytes(c)}  /- {c} -/\n  ' for c in async_actions))
+    # requests that reach a module and may change what later requests are answered: reading polls the hardware,
+    # changing writes a parameter, a command does whatever it does.  No other request has an effect on answers.
+    state_actions = [m.READREQUEST, m.WRITEREQUEST, m.COMMANDREQUEST]
+    out.append('/-- READREQUEST, WRITEREQUEST, COMMANDREQUEST: the requests carried out by a module -/')
+    out.append('def stateActions : List (List Nat) := ' + llist(f'{lbytes(c)}  /- {c} -/\n  ' for c in state_actions))
+    for name, val in [('readRequest', m.READREQUEST), ('writeRequest', m.WRITEREQUEST), ('commandRequest', m.COMMANDREQUEST),
+                      ('pingRequest', m.HEARTBEATREQUEST), ('activateRequest', m.ENABLEEVENTSREQUEST),
+                      ('deactivateRequest', m.DISABLEEVENTSREQUEST), ('loggingRequest', m.LOGGING_REQUEST)]:
+        out.append(f'def {name} : List Nat := {lbytes(val)}  -- {val!r}')
     out.append(f'def eol : Nat := {itf.EOL[0]}')
     out.append(f'def helpLineCount : Nat := {len(m.HelpMessage.splitlines())}')
     out.append("def helpLineAction : List Nat := " + lbytes('_') + "  -- handle_help sends ('_', idx+1, line)")
